@@ -21,11 +21,11 @@ CHECKS = {
  "C05": (True, "E2", "model_checking",
    "deviation-bounded exhaustive schedule search over Network/Pci with virtual time",
    "Configurations of 1-2 networks, 2-4 machines, 1-2 taps, MTU boundary sizes, constant/variable latency and throughputs send unicast, unknown-address, broadcast and oversize frames concurrently; every schedule and jitter choice within d deviations is executed and judged exactly under virtual time: right tap only, every other tap for broadcast, payload and sender unchanged, MTU refusal, distinct addresses, latency and throughput lower bounds, medium serialisation.",
-   "Delivery of a broadcast to the sender's own tap is not judged; construction of taps from several OS threads is outside a single-threaded explorer.", "6 C05"),
+   "Rates are configured in bytes per second and in bits per second (a multiple of 8, not a multiple, below 8). Delivery of a broadcast to the sender's own tap is not judged; construction of taps from several OS threads is outside a single-threaded explorer.", "6 C05"),
  "C06": (True, "E2", "model_checking",
    "exhaustive loss-pattern enumeration (all subsets of the first k ARP frames) x bounded schedule deviations on the real Arp",
    "For each topology/subnet/gateway configuration every subset of dropped frames among the first k ARP frames, crossed with every pair of scheduling deviations, is executed on the real Arp/Pci/Network: a resolved MAC is the owner's (or gateway's), an exchange that got through implies success, concurrent resolvers agree, unclaimed addresses fail within the retry budget and nothing hangs.",
-   "k = 4 (quick) / 6 (thorough); horizon 3 s of virtual time.", "6 C06"),
+   "k = 4 (quick) / 6 (thorough) for the subset enumeration; in addition burst-loss configurations lose the first j rounds of requests or of replies (j up to the retry budget) ahead of the choices, so that only a late exchange can succeed; horizon 3 s of virtual time.", "6 C06"),
  "C11": (True, "E1 (+ stateright cross-check)", "model_checking",
    "explicit-state BFS to fixpoint over the real Reassembly with fragments from the real fragment()",
    "All arrival orders of the fragments of several datagrams (differing in one key field each, a successor with the same key, two MTU chains that overlap), duplicates within a budget and expiry callbacks at every point are enumerated on the real reassembler against a range-cover reference; state counts are cross-checked against stateright.",
@@ -76,7 +76,7 @@ CHECKS = {
    "d <= 1 (quick) / 2 (thorough) over task order and frames held back; hosts use a /32 mask with a default gateway as in the repository's own simulation.", "6 C16"),
  "C13": (True, "E2", "model_checking",
    "deviation-bounded schedule search with run_internet_with_timeout itself as a task of the explored runtime",
-   "Machine sets from 0 machines to three-machine SendMessage/Forward/Capture chains, harness applications that are slow to initialise, never initialise, return, hang, or request shutdown early/late/concurrently (incl. 20 at one instant) are run in every schedule within d deviations under a paused clock; a global event order shows that no frame or demux precedes the last initialisation, the status is the first request's (or TimedOut), and the call returns within timeout + 1 s.",
+   "Machine sets from 0 machines to three-machine SendMessage/Forward/Capture chains, plus 17 sets of the other built-in protocols and applications (DHCP, DNS, socket, basic, streaming; pairs, servers alone, clients alone) on full stacks with ARP; harness applications that are slow to initialise, never initialise, return, hang, or request shutdown early/late/concurrently (incl. 20 at one instant) are run in every schedule within d deviations under a paused clock; a global event order shows that no frame or demux precedes the last initialisation, the status is the first request's (or TimedOut), and the call returns within timeout + 1 s.",
    "A request at exactly the timeout instant may win or lose; the built-in Capture's own request is accepted as a winner where present.", "6 C13"),
  "C04": (True, "E2", "model_checking",
    "complete enumeration of binding configurations x deviation-bounded schedule search, wire-driven reference demultiplexer",
